@@ -1,8 +1,8 @@
-HOOK_COMMITS = ["666c934"]
+HOOK_COMMITS = ["666c934", "c245eda", "5c6361d"]
 NOTES = ("Every check is `./check <id>`: it rebuilds the harness from /repo's working tree, rebuilds the Lean "
          "theorems, audits axioms, runs the model/implementation correspondence and writes evidence/<id>.json. "
          "See DESIGN.md.")
 NOT_YET = {}
 
 # properties whose check has been reviewed by the lead and passes on the current tree
-READY = ["C02", "C15", "C16", "C18", "C19", "C20"]
+READY = ["C02", "C07", "C08", "C09", "C12", "C15", "C16", "C18", "C19", "C20"]
